@@ -225,11 +225,25 @@ def r2_value_types(P, rep, ctx, tier):
     d = P.cls("schema.types.Duration")
     enc = [norm(x.args[0]) for x in d.node.decorator_list if isinstance(x, ast.Call) and norm(x.func) == "json_encoder"]
     _, parse = _parser_parse(P, d)
-    ok = enc == ["isodate.duration_isoformat"] and parse is not None and "isodate.parse_duration(v)" in norm(parse.node)
-    rets = [x.value for x in walk_local(parse.node) if isinstance(x, ast.Return)] if parse is not None else []
-    canon = len(rets) == 1 and norm(rets[0]) == "tcls(seconds=dur.total_seconds())"
-    rep.check(canon, "C12.R2", d.qual, "every accepted Duration input (string or instance) is normalised to the same seconds-only form", parse.loc() if parse else "", construct=f"Duration parse returns {[norm(r) for r in rets]}",
-              message=f"Duration.Parser.parse does not normalise every input to tcls(seconds=total_seconds()) (returns {[norm(r) for r in rets]}): an instance given with years/months keeps its calendar part while its serialised form parses back without it")
+    canon, uses_isodate, rets = False, False, []
+    if parse is not None:
+        pf_ = F(ctx, parse)
+        tc, vv = parse.params[1], parse.params[2]
+        try:
+            vp = pf_.value_paths()
+        except ValueError:
+            vp = []
+        rets = [norm(val) for lits, val, node in vp]
+        canon = bool(vp)
+        for lits, val, node in vp:
+            dd = dict(lits)
+            is_str = dd.get(f"isinstance({vv}, str)")
+            want = f"{tc}(seconds=isodate.parse_duration({vv}).total_seconds())" if is_str else f"{tc}(seconds={vv}.total_seconds())"
+            canon = canon and is_str is not None and norm(val) == want
+            uses_isodate = uses_isodate or (is_str is True and norm(val) == want)
+    ok = enc == ["isodate.duration_isoformat"] and parse is not None and uses_isodate
+    rep.check(canon, "C12.R2", d.qual, "every accepted Duration input (string or instance) is normalised to the same seconds-only form", parse.loc() if parse else "", construct="Duration parse normal form",
+              message=f"Duration.Parser.parse does not normalise every input to tcls(seconds=total_seconds()) (returns {rets}): an instance given with years/months keeps its calendar part while its serialised form parses back without it")
     rep.check(ok, "C12.R2", d.qual, "Duration is encoded with isodate.duration_isoformat and parsed with isodate.parse_duration", f"{d.module.relpath}:{d.node.lineno}", construct="Duration codec pair", message=f"Duration encoder/parser are not the isodate format/parse pair: encoder {enc}")
 
 
@@ -296,15 +310,23 @@ def r4_constants(P, rep, ctx):
     rep.check(not shares, "C12.R4", fi.qual, "constants dict is not shared with a base class", fi.loc(), construct="constants aliasing", message=f"self.__constants__ aliases another object: {[norm(s) for s in shares]}")
     fi = P.func("schema.decorators.add_const_fields")
     af = fi.nested.get("add_fields")
-    t = norm(af.node) if af else ""
-    ok = "ret.__constants__.update(consts)" in t and "for name, value in consts.items()" in t and "mcls.__fields__[name] = field" in t
+    ok = False
     if af is not None:
-        g = ctx.cfg(af)
-        loops = [n for n in g.nodes if n.kind == "for" and norm(n.stmt.iter) == "consts.items()"]
-        stores = [n.idx for n in g.nodes if n.kind == "stmt" and norm(n.stmt) == "mcls.__fields__[name] = field"]
-        ok_iter = len(loops) == 1 and bool(stores) and g.every_path_passes(stores, loops[0].idx, src=loops[0].idx, src_label="iter")
+        f = F(ctx, af)
+        g = f.g
+        cs, mc = fi.params[0], af.params[0]
+        loops = [n for n in g.nodes if n.kind == "for" and f.x(n.stmt.iter) == f"{cs}.items()" and isinstance(n.stmt.target, ast.Tuple) and len(n.stmt.target.elts) == 2]
+        ok_iter = ok_val = False
+        if len(loops) == 1:
+            L = loops[0].idx
+            nm, val = [norm(e) for e in loops[0].stmt.target.elts]
+            stores = [(i, v) for i, v, b in f.stores(f"{mc}.__fields__[{nm}]")]
+            ok_iter = bool(stores) and f.hit_before(L, nodes=[i for i, v in stores], src_edge=(L, "iter")) and f.hit_before(g.exit, nodes=[L])
+            infers = [f.xe_at(i, v) for i, v in stores]
+            ok_val = bool(infers) and all(isinstance(x, ast.Call) and norm(x.func) == "ModelField.infer" and norm(kwarg(x, "value") or ast.Constant(value=None)) == val and norm(kwarg(x, "name") or ast.Constant(value=None)) == nm for x in infers)
         rep.check(ok_iter, "C12.R4", af.qual, "for every constant the pydantic field is (re)built with the constant as default (no skipped iteration)", af.loc(), construct="field rebuild on every iteration",
                   message="add_const_fields can skip rebuilding the field for a constant (e.g. when it re-declares an inherited constant): the field default keeps the parent's value, so objects built without validation serialise the wrong constant")
-        fld = [c for c in local_calls(af.node) if norm(c.func) == "ModelField.infer"]
-        rep.check(len(fld) == 1 and norm(kwarg(fld[0], "value") or ast.Constant(value=None)) == "value" and norm(kwarg(fld[0], "name") or ast.Constant(value=None)) == "name", "C12.R4", af.qual, "the field default is the constant's value", af.loc(), construct="ModelField.infer(value=value)", message="the constant field's default is not the declared constant value")
+        rep.check(ok_val, "C12.R4", af.qual, "the field default is the constant's value", af.loc(), construct="ModelField.infer(value=value)", message="the constant field's default is not the declared constant value")
+        rec = f.call_sites(f"__r.__constants__.update({cs})")
+        ok = ok_iter and bool(rec) and all(f.alias_root(i, b["__r"]) == mc for i, c, b in rec) and f.hit_before(g.exit, nodes=[i for i, c, b in rec])
     rep.check(ok, "C12.R4", fi.qual, "add_const_fields defines a field for and records every constant", fi.loc(), construct="add_const_fields", message="add_const_fields does not record every constant in __constants__ / define its field")
